@@ -173,7 +173,11 @@ def run_case(case: dict[str, Any]) -> dict[str, Any]:
         ecu.ping = ping  # type: ignore[method-assign]
 
         async def caller(c: dict[str, Any], name: str) -> None:
-            await asyncio.sleep(c["start"])
+            try:
+                await asyncio.sleep(c["start"])
+            except asyncio.CancelledError:
+                results[name] = ("cancelled", None)  # cancelled before it ever touched the client
+                raise
             windows[name] = [loop.time(), -1.0]
             try:
                 r = await ecu.request(service.ReadDataByIdentifierRequest(c["did"]), UDSRequestConfig(max_retry=c["max_retry"]))
@@ -281,7 +285,33 @@ def overlap(case: dict[str, Any], r: dict[str, Any]) -> bool:
 
 
 def shards(tier: str) -> list[dict[str, Any]]:
-    return [{"n": 200 if tier == "quick" else 7000} for _ in range(16)]
+    return [{"n": 200 if tier == "quick" else 7000} for _ in range(13)] + [{"n": 25 if tier == "quick" else 900, "cancel_sweep": True} for _ in range(3)]
+
+
+def cancel_points(case: dict[str, Any], victim: int) -> list[float]:
+    """Every instant at which something happens to the victim's exchange in the uncancelled run (its own writes and reads,
+    the instants it starts and finishes) - cancellation is then injected just before, at and just after each of them, which
+    lands on every await point of the victim (lock acquisition, write, read, backoff sleep, pending poll)."""
+    base = dict(case, cancel=None)
+    r = run_case(base)
+    if r["status"] != "ok":
+        return []
+    name = f"c{victim}"
+    start = case["callers"][victim]["start"]
+    ts = {t for k, t, who, _ in r["trace"] if who == name}
+    w = r["windows"].get(name)
+    if w:
+        ts |= {w[0], w[1]}
+    # also while it is queued behind others: instants of other callers' events before its first write
+    first = min([t for k, t, who, _ in r["trace"] if who == name and k == "write"], default=None)
+    if first is not None:
+        ts |= {t for k, t, who, _ in r["trace"] if start <= t <= first}
+    out = set()
+    for t in ts:
+        for d in (-0.0004, 0.0, 0.0004):
+            if t + d - start >= 0:
+                out.add(round(t + d - start, 6))
+    return sorted(out)
 
 
 def run_shard(spec: dict[str, Any], seed: int) -> Collector:
@@ -298,6 +328,15 @@ def run_shard(spec: dict[str, Any], seed: int) -> Collector:
         for b_, m in res:
             col.violation(b_, case, m)
 
+    if spec.get("cancel_sweep"):
+        def sweep(case: dict[str, Any]) -> None:
+            victim = (case["cancel"][0] if case["cancel"] else 0) % len(case["callers"])
+            for off in cancel_points(case, victim)[:60]:
+                body(dict(case, cancel=[victim, off]))
+
+        run_given(case_s(), sweep, spec["n"], seed)
+        col.exhaustive_parts.append("for each generated schedule of these shards: cancellation of one caller just before / at / just after every instant at which its exchange makes progress")
+        return col
     run_given(case_s(), body, spec["n"], seed)
     return col
 
